@@ -17,6 +17,10 @@ from typing import Any, Dict, List, Optional
 
 ROOT = os.path.dirname(os.path.dirname(os.path.abspath(__file__)))
 EVIDENCE_DIR = os.path.join(ROOT, "evidence")
+if os.environ.get("PYVC_REPO") and os.path.realpath(os.environ["PYVC_REPO"]) != "/repo":
+    # a run against a scratch copy of the repository (mutation / seeded-change evaluation) is not evidence about /repo
+    EVIDENCE_DIR = os.path.join(ROOT, ".cache", "evidence-scratch")
+    os.makedirs(EVIDENCE_DIR, exist_ok=True)
 REPLAY_DIR = os.path.join(ROOT, "replays")
 LEDGER_DIR = os.path.join(ROOT, "ledger")
 FINDINGS = os.path.join(ROOT, "known_findings.txt")
